@@ -99,6 +99,30 @@ def defectdojo_line_only(node: Rng, line: int) -> bool:
     return fin(res.match_location(_pos(node), CALL) == (node[0] <= line <= node[2]))
 
 
+def defectdojo_selection_multiline(first: int, span: int, off: int) -> bool:
+    """UtilsMixin.node_is_selected (results_for_node -> the result's OWN match_location) for a DefectDojo finding - one
+    line, no columns - and a call that starts on one of 3 lines and spans 1-3 lines: the node is selected iff the
+    reported line is ANY line of the node, also a continuation line (line numbers are concrete picks, so that code
+    which hashes or indexes them stays inside the model).
+    post: _
+    """
+    start = 3 if first % 3 == 0 else (7 if first % 3 == 1 else 40)
+    length = 1 if span % 3 == 0 else (2 if span % 3 == 1 else 3)
+    delta = -1 if off % 5 == 0 else (0 if off % 5 == 1 else (1 if off % 5 == 2 else (2 if off % 5 == 3 else 3)))
+    end = start + length - 1
+    line = start + delta
+
+    class _DD(DefectDojoResult):
+        def __hash__(self):
+            return id(self)
+
+    node = cst.parse_expression("f(x)")
+    res = _DD(finding_id=1, rule_id="r", locations=[_loc((line, -1, line, -1))])
+    m = _Mixin([res], [], [], {id(node): _pos((start, 4, end, 9))})
+    UtilsMixin.results_for_node.cache_clear()
+    return fin(m.node_is_selected(node) == (start <= line <= end))
+
+
 def jwt_and_tempfile(node: Rng, finding: Rng) -> bool:
     """JwtDecodeVerifySASTTransformer.match_location (finding inside the call, same lines) and
     TempfileMktempTransformer.match_location (same lines): match implies same start and end line; jwt: both
@@ -416,6 +440,7 @@ def warmup():
     generic_separation((1, 0, 1, 4), (1, 2, 1, 4))
     sonar_tuple_widening((1, 0, 1, 6), (1, 1, 1, 5), True)
     defectdojo_line_only((1, 0, 3, 4), 2)
+    defectdojo_selection_multiline(1, 2, 3)
     jwt_and_tempfile((1, 0, 1, 9), (1, 3, 1, 6))
     node_selection((1, 0, 1, 4), (1, 6, 1, 10), True, False, False)
     findings_for_line(2, [(1, 2), (3, 3)])
@@ -468,6 +493,7 @@ SPEC = {
         Xh("generic_separation", 120, 300),
         Xh("sonar_tuple_widening", 120, 300),
         Xh("defectdojo_line_only", 60, 200),
+        Xh("defectdojo_selection_multiline", 60, 200),
         Xh("jwt_and_tempfile", 120, 300),
         Xh("node_selection", 150, 400),
         Xh("findings_for_line", 120, 300),
